@@ -467,3 +467,70 @@ PT10 = _pushdown_T((1, 0))
 PT201 = _pushdown_T((2, 0, 1))
 PT120 = _pushdown_T((1, 2, 0))
 PT021 = _pushdown_T((0, 2, 1))
+
+
+def _ext_rechunk_node(ex, st, args, kwargs, node):
+    """Rechunk(array, chunks, threshold, block_size_limit, balance, method): a node with those chunks (explicit layouts:
+    normalize_chunks[explicit]) that remembers its operands"""
+    o = ex.fresh_value("obj:Arr", "rechunked")
+    o.fields["chunks"] = args[1]
+    o.fields["__rechunk_of__"] = args[0]
+    o.fields["__planner__"] = {"threshold": args[2], "block_size_limit": args[3], "method": args[5]}
+    return o
+
+
+def _ext_expand_dims(ex, st, args, kwargs, node):
+    """ExpandDims(array, axes): a record of its operands"""
+    o = ex.fresh_value("obj:ExpandDims", "expanded")
+    o.fields["array"] = args[0]
+    o.fields["axes"] = args[1]
+    return o
+
+
+def _pushdown_E(rank_out, new_axes):
+    tys = ",".join(["seq"] * rank_out)
+    inner_axes = [a for a in range(rank_out) if a not in new_axes]
+
+    @contract(f"{RC}::Rechunk._pushdown_through_expand_dims", spec=f"r{rank_out}-new" + "".join(map(str, new_axes)), props=["C14", "C02"])
+    class pushdown_expand_dims:
+        """Rechunk(ExpandDims(y, axes), target) -> ExpandDims(Rechunk(y, inner), axes) where `inner` is the target without
+        the expanded axes, in order -- taken only when the target gives every expanded axis the chunks (1,), the only chunks
+        ExpandDims can produce there; otherwise the rewrite declines"""
+        params = {"self": "obj:Rechunk"}
+        result = "obj:ExpandDims"
+        fields = {"Rechunk": {"array": "obj:ExpandDims", "chunks": "tup:" + tys, "threshold": "abs:Any", "block_size_limit": "abs:Any",
+                              "method": "abs:Any"},
+                  "ExpandDims": {"array": "obj:Arr", "axes": "const"}, "Arr": {}}
+        consts = {"self.array.axes": tuple(new_axes)}
+        externals = {"ExpandDims": _ext_expand_dims, "Rechunk": _ext_rechunk_node}
+
+        def requires(self):
+            return True
+
+        def ensures(result, self):
+            from pyvc.spec import Opt
+            import z3
+            target = self.get("chunks")
+            unit = S.And([S.And(S.slen(S.item(target, a)) == 1, S.at(S.item(target, a), 0) == 1) for a in new_axes])
+            if isinstance(result, Opt):
+                return {"declines-only-when-an-expanded-axis-is-not-one-unit-block": S.Not(unit)}
+            inner = result.fields["array"]
+            out = {"taken-only-when-every-expanded-axis-is-one-unit-block": unit,
+                   "rechunk-of-the-same-input": inner.fields.get("__rechunk_of__") is self.get("array").get("array")}
+            for pos, a in enumerate(inner_axes):
+                out[f"inner-axis-{pos}-gets-the-target-of-output-axis-{a}"] = S.seq_equal(S.item(inner.fields["chunks"], pos), S.item(target, a))
+            planner = inner.fields.get("__planner__", {})
+            for k in ("threshold", "block_size_limit", "method"):
+                a_, b_ = planner.get(k), self.get(k)
+                ta = a_ if z3.is_expr(a_) else getattr(a_, "t", None)
+                tb = b_ if z3.is_expr(b_) else getattr(b_, "t", None)
+                out[f"planner-argument-{k}-travels"] = ta is not None and tb is not None and ta.eq(tb)
+            return out
+
+    pushdown_expand_dims.__name__ = f"pushdown_expand_dims_r{rank_out}_" + "".join(map(str, new_axes))
+    return pushdown_expand_dims
+
+
+PE0 = _pushdown_E(2, (0,))
+PE1 = _pushdown_E(3, (1,))
+PE02 = _pushdown_E(3, (0, 2))
